@@ -28,6 +28,7 @@ pub fn registry() -> Vec<Box<dyn Scenario>> {
         Box::new(FsmWalk),
         Box::new(Faults),
         Box::new(Isolate),
+        Box::new(Alpide),
     ]
 }
 
@@ -2119,5 +2120,270 @@ impl Scenario for Isolate {
             }
         }
         Trial::Isolate { runs, by_fee: stave, label }
+    }
+}
+
+// ------------------------------------------------------------------------------------------------
+// C13
+// ------------------------------------------------------------------------------------------------
+pub struct Alpide;
+
+fn legal_lane_ids(barrel: itsgen::gen::Barrel, rng: &mut Rng) -> Vec<u8> {
+    use itsgen::gen::Barrel;
+    match barrel {
+        Barrel::Inner => {
+            let g = rng.below(3) as u8;
+            (0..3).map(|i| itsgen::words::ib_lane_id(g * 3 + i)).collect()
+        }
+        Barrel::Middle => {
+            if rng.chance(1, 2) {
+                vec![0x43, 0x44, 0x45, 0x46, 0x48, 0x49, 0x4A, 0x4B]
+            } else {
+                vec![0x53, 0x54, 0x55, 0x56, 0x58, 0x59, 0x5A, 0x5B]
+            }
+        }
+        Barrel::Outer => {
+            if rng.chance(1, 2) {
+                (0x40..=0x46).chain(0x48..=0x4E).collect()
+            } else {
+                (0x50..=0x56).chain(0x58..=0x5E).collect()
+            }
+        }
+    }
+}
+
+fn all_lane_ids(barrel: itsgen::gen::Barrel) -> Vec<u8> {
+    match barrel {
+        itsgen::gen::Barrel::Inner => (0x20..=0x28).collect(),
+        _ => (0x40..=0x46).chain(0x48..=0x4E).chain(0x50..=0x56).chain(0x58..=0x5E).collect(),
+    }
+}
+
+/// A frame plan: mostly legal frames, some with exactly one broken rule, optionally one lane that
+/// announces a fatal state and is silent afterwards.
+fn frame_plan(barrel: itsgen::gen::Barrel, n: usize, rng: &mut Rng) -> (Vec<itsgen::gen::FrameSpec>, Vec<String>) {
+    use itsgen::alpide::{Chip, LaneFrame, FATAL_APES};
+    use itsgen::gen::{Barrel, FrameSpec};
+    let base_lanes = legal_lane_ids(barrel, rng);
+    let mut fatal_lane: Option<u8> = None; // lane id that went fatal
+    let fatal_at = if rng.chance(1, 4) { Some(rng.usize_below(n.max(1))) } else { None };
+    let mut plan = Vec::new();
+    let mut kinds = Vec::new();
+    for k in 0..n {
+        let bc = rng.below(256) as u8;
+        let mut lanes: Vec<u8> = base_lanes.iter().copied().filter(|l| Some(*l) != fatal_lane).collect();
+        let mut kind = "legal";
+        let mk_chips = |lane_id: u8, bc: u8, rng: &mut Rng| -> Vec<Chip> {
+            match barrel {
+                Barrel::Inner => vec![Chip {
+                    id: itsgen::words::lane_of_id(lane_id),
+                    bc,
+                    empty: rng.chance(1, 4),
+                    flags: rng.below(16) as u8,
+                }],
+                _ => {
+                    let n = rng.range(1, 7) as u8;
+                    let base = if rng.chance(1, 2) { 0 } else { 8 };
+                    (0..n).map(|i| Chip { id: base + i, bc, empty: rng.chance(1, 4), flags: rng.below(16) as u8 }).collect()
+                }
+            }
+        };
+        let breaks = rng.chance(2, 5);
+        let choice = rng.below(10);
+        if breaks {
+            match choice {
+                0 if lanes.len() > 1 => {
+                    let i = rng.usize_below(lanes.len());
+                    lanes.remove(i);
+                    kind = "lane_missing";
+                }
+                1 => {
+                    let extra: Vec<u8> = all_lane_ids(barrel).into_iter().filter(|l| !lanes.contains(l)).collect();
+                    if !extra.is_empty() {
+                        lanes.push(*rng.pick(&extra));
+                        kind = "lane_extra";
+                    }
+                }
+                2 if barrel == Barrel::Inner => {
+                    // right count, wrong group: replace one lane by a lane of another group
+                    let i = rng.usize_below(lanes.len());
+                    let cur: Vec<u8> = lanes.iter().map(|l| itsgen::words::lane_of_id(*l)).collect();
+                    let g = cur[0] / 3;
+                    let other: Vec<u8> = (0..9u8).filter(|x| x / 3 != g).collect();
+                    lanes[i] = itsgen::words::ib_lane_id(*rng.pick(&other));
+                    kind = "inner_group";
+                }
+                9 => {
+                    lanes.clear();
+                    kind = "empty_frame";
+                }
+                _ => {}
+            }
+        }
+        let mut lfs: Vec<LaneFrame> = lanes
+            .iter()
+            .map(|&lane_id| LaneFrame { lane_id, chips: mk_chips(lane_id, bc, rng), fatal_ape: None })
+            .collect();
+        if breaks && kind == "legal" && !lfs.is_empty() {
+            let li = rng.usize_below(lfs.len());
+            match choice {
+                3 | 4 => {
+                    // one chip's bunch counter differs (needs >= 2 chips) / one lane's differs
+                    if lfs[li].chips.len() >= 2 && choice == 3 {
+                        let ci = rng.usize_below(lfs[li].chips.len());
+                        lfs[li].chips[ci].bc = bc.wrapping_add(1 + rng.below(200) as u8);
+                        kind = "chip_bc";
+                    } else if lfs.len() >= 2 {
+                        let nb = bc.wrapping_add(1 + rng.below(200) as u8);
+                        for c in lfs[li].chips.iter_mut() {
+                            c.bc = nb;
+                        }
+                        kind = "lane_bc";
+                    }
+                }
+                5 if barrel == Barrel::Inner => {
+                    lfs[li].chips[0].id = (lfs[li].chips[0].id + 1 + rng.below(7) as u8) % 9;
+                    if lfs[li].chips[0].id == itsgen::words::lane_of_id(lfs[li].lane_id) {
+                        lfs[li].chips[0].id = (lfs[li].chips[0].id + 1) % 9;
+                    }
+                    kind = "inner_chip_id";
+                }
+                6 if barrel == Barrel::Inner => {
+                    let mut c = lfs[li].chips[0].clone();
+                    c.id = (c.id + 1) % 9;
+                    lfs[li].chips.push(c);
+                    kind = "inner_two_chips";
+                }
+                7 => {
+                    let c = lfs[li].chips[0].clone();
+                    lfs[li].chips.push(c);
+                    kind = "duplicate_chip";
+                }
+                8 => {
+                    lfs[li].chips.clear();
+                    kind = "lane_without_chip";
+                }
+                _ => {}
+            }
+        }
+        if Some(k) == fatal_at && fatal_lane.is_none() && !lfs.is_empty() {
+            let li = rng.usize_below(lfs.len());
+            lfs[li].fatal_ape = Some(*rng.pick(&FATAL_APES));
+            fatal_lane = Some(lfs[li].lane_id);
+            kind = "lane_announces_fatal";
+        }
+        kinds.push(kind.to_string());
+        plan.push(FrameSpec { lanes: lfs, hit_seed: rng.next_u64() });
+    }
+    (plan, kinds)
+}
+
+impl Scenario for Alpide {
+    fn property(&self) -> &'static str {
+        "C13"
+    }
+    fn n_cases(&self, tier: Tier) -> u64 {
+        match tier {
+            Tier::Quick => 2_000,
+            Tier::Thorough => 100_000,
+        }
+    }
+    fn rule(&self) -> String {
+        "case = one stave (inner / middle / outer) carrying 1..10 readout frames from the independent ALPIDE encoder: \
+         legal frames and frames with exactly one broken rule (lane missing / extra, wrong inner group, one chip's or \
+         one lane's bunch counter differs, inner chip ID != lane, two chips on an inner lane, chip ID twice in a lane, \
+         lane without any chip, frame without data words), optionally one lane announcing a fatal APE and silent \
+         afterwards (later frames expect one lane fewer); chips with chosen IDs, bunch counters, readout flags, \
+         empty-frame and header/trailer forms. The lanes' byte streams (region headers, short/long hits, busy on/off, \
+         padding: the pixel-hit content) are cut into 9-byte data words, the lanes' words merged by a seeded \
+         interleaving and the frames split over pages by continuation; no-data TDHs precede some frames. Each case is \
+         generated TWICE from the same chips with different pixel-hit content / word interleaving and run under \
+         seeded schedules with `check all its-stave -S`. Oracle: per frame, the messages with codes E72/E73 (lanes), \
+         E74/E75 (lane errors, with E9003/E9004/E9005) and E701 at the frame's start offset are exactly those the \
+         encoder's ground truth (itsgen::alpide_model) prescribes, nothing for a legal frame, no frame-level message \
+         elsewhere; the announcing frame of a fatal lane is not judged. Both variants give the same verdicts and \
+         alpide_stats equal to the counters computed from the chips' trailer flags. Non-trivial: >= 1 frame and \
+         >= 4 threads."
+            .into()
+    }
+    fn make(&self, seed: u64, case: u64, _tier: Tier) -> Trial {
+        use itsgen::gen::Barrel;
+        let mut rng = Rng::new(seed);
+        let barrel = [Barrel::Inner, Barrel::Middle, Barrel::Outer][(case % 3) as usize];
+        let want = rng.range(1, 10) as usize;
+        let (plan, kinds) = frame_plan(barrel, 40, &mut rng);
+        let gen_seed = rng.next_u64();
+        let mut runs = Vec::new();
+        let mut label = format!("{barrel:?}");
+        let mut flags: Vec<u64> = Vec::new();
+        for variant in 0..2u64 {
+            let mut cfg = GenCfg::swarm(&mut Rng::new(gen_seed), true);
+            cfg.n_links = 1;
+            cfg.barrels = Some(vec![barrel]);
+            cfg.stave_mode = true;
+            cfg.hbfs = (1, 2);
+            cfg.data_pages = (1, 3);
+            cfg.triggers = (1, 3);
+            cfg.p_no_data = 200;
+            cfg.max_hits = if variant == 0 { 2 } else { 5 };
+            // same chips, other pixel-hit content
+            cfg.frame_plan = plan
+                .iter()
+                .map(|f| itsgen::gen::FrameSpec { lanes: f.lanes.clone(), hit_seed: f.hit_seed ^ (variant * 0x9E37_79B9) })
+                .collect();
+            let _ = want;
+            let st = gen_conforming(&cfg, &mut Rng::new(gen_seed));
+            let frames = itsgen::faults::scan_frames(&st, 0);
+            let used = frames.len().min(plan.len());
+            let truth = itsgen::alpide_model::judge(barrel, &plan[..used]);
+            let run_flags = itsgen::alpide_model::flags_truth(&plan[..used]).to_vec();
+            if variant == 0 {
+                flags = run_flags.clone();
+                for k in kinds.iter().take(used) {
+                    if k != "legal" && !label.contains(k.as_str()) {
+                        label = format!("{label} {k}");
+                    }
+                }
+            }
+            let offs = st.offsets();
+            let inner = barrel == Barrel::Inner;
+            let fexp: Vec<crate::trials::FrameExpect> = frames
+                .iter()
+                .take(used)
+                .zip(truth.iter())
+                .map(|(f, t)| {
+                    let k = st.order.iter().position(|&(l, p)| l == 0 && p == f.start.0).unwrap();
+                    let off = offs[k] + st.links[0].packets[f.start.0].word_offset(f.start.1);
+                    let mut sub = Vec::new();
+                    if t.e9003 {
+                        sub.push("E9003".to_string());
+                    }
+                    if t.e9004 {
+                        sub.push("E9004".to_string());
+                    }
+                    if t.e9005 {
+                        sub.push("E9005".to_string());
+                    }
+                    crate::trials::FrameExpect {
+                        offset: off as u64,
+                        lanes_code: if t.lanes_rule { Some(if inner { "E72" } else { "E73" }.to_string()) } else { None },
+                        lane_err_code: if t.lane_errors { Some(if inner { "E74" } else { "E75" }.to_string()) } else { None },
+                        sub_codes: sub,
+                        empty: t.empty,
+                        dont_care: t.dont_care,
+                    }
+                })
+                .collect();
+            let ext = "json";
+            let mut parts = s(CHECK_MODES[4]);
+            parts.extend(s(&["-S", "@STATS@", "-D", ext]));
+            let im = pick_input_mode(&mut rng);
+            let mut spec = specgen::spec(im, &parts, st.bytes());
+            if rng.chance(3, 4) {
+                swarm_schedule(&mut spec, &mut rng, 300 + st.total_packets() as u64 * 20);
+            }
+            runs.push(crate::trials::AlpideRun { spec, frames: fexp, flags: run_flags });
+        }
+        Trial::Alpide { runs, flags, label }
     }
 }
